@@ -1,8 +1,121 @@
-import Pun.Model.Proto
+import Pun.Model.B2B
 namespace Pun.Drv.C13
-open Pun
+open Pun Pun.Arith Pun.Expr Pun.B2B
+
+/-- prefix expression, tokens separated by `;` :
+`v;i` `c;q` `add;A;B` `sub;A;B` `mul;A;B` `div;A;B` `pow;k;A` `exp;A` `sqrt;A` -/
+def parseE : Nat → List String → Option (Expr × List String)
+  | 0, _ => none
+  | fuel + 1, toks =>
+    match toks with
+    | "v" :: i :: rest => do some (.var (← i.toNat?), rest)
+    | "c" :: q :: rest => do some (.const (← parseRat q), rest)
+    | "pow" :: k :: rest => do
+        let k ← k.toNat?
+        let (a, r) ← parseE fuel rest
+        some (.pow a k, r)
+    | "exp" :: rest => do let (a, r) ← parseE fuel rest; some (.un .exp a, r)
+    | "sqrt" :: rest => do let (a, r) ← parseE fuel rest; some (.un .sqrt a, r)
+    | op :: rest =>
+      if op = "add" ∨ op = "sub" ∨ op = "mul" ∨ op = "div" then do
+        let (a, r1) ← parseE fuel rest
+        let (b, r2) ← parseE fuel r1
+        match op with
+        | "add" => some (.add a b, r2)
+        | "sub" => some (.sub a b, r2)
+        | "mul" => some (.mul a b, r2)
+        | _ => some (.div a b, r2)
+      else none
+    | [] => none
+
+def parseExpr (s : String) : Option Expr :=
+  let toks := s.splitOn ";"
+  match parseE (toks.length + 1) toks with
+  | some (e, []) => some e
+  | _ => none
+
+def pairs : List Rat → Option (List (Rat × Rat))
+  | [] => some []
+  | a :: b :: rest => (pairs rest).map (fun t => (a, b) :: t)
+  | _ => none
+
+def parseBox (s : String) : Option Box := do pairs (← parseList s)
+
+def ufunOf (r : Rat) : Option UFun := if r = 0 then some .exp else if r = 1 then some .sqrt else none
+def ufunCode : UFun → Rat | .exp => 0 | .sqrt => 1
+
+def triples : List Rat → Option (List (UFun × Rat × Rat))
+  | [] => some []
+  | f :: x :: v :: rest => do
+      let f ← ufunOf f
+      let t ← triples rest
+      some ((f, x, v) :: t)
+  | _ => none
+
+def parseTable (s : String) : Option (List (UFun × Rat × Rat)) := do triples (← parseList s)
+
+/-- the supplied values of exp / sqrt as a function (0 where nothing was supplied; the driver
+refuses to answer when such a point is read, see `missing`) -/
+def tableFun (t : List (UFun × Rat × Rat)) (f : UFun) (x : Rat) : Rat :=
+  match t.find? (fun e => e.1 = f ∧ e.2.1 = x) with
+  | some e => e.2.2
+  | none => 0
+
+def missing (t : List (UFun × Rat × Rat)) (qs : List (UFun × Rat)) : List (UFun × Rat) :=
+  (qs.filter (fun q => !(t.any (fun e => e.1 = q.1 ∧ e.2.1 = q.2)))).eraseDups
+
+def showNeed (qs : List (UFun × Rat)) : String :=
+  "need " ++ showList (qs.flatMap (fun q => [ufunCode q.1, q.2]))
+
+def showVal : Except Err Val → String
+  | .ok (.num c) => s!"ok {showRat c} {showRat c}"
+  | .ok (.ivl a b) => s!"ok {showRat a} {showRat b}"
+  | .error e => s!"err {e}"
+
+def parseStrategy : String → Strategy
+  | "direct" => .direct | "endpoints" => .endpoints | "subinterval" => .subinterval | _ => .unknown
+
+def parseStyle : String → Option (Option Style)
+  | "direct" => some (some .direct) | "endpoints" => some (some .endpoints) | "none" => some none
+  | _ => none
+
+def parseNsub (s : String) : Option (Option Nat) :=
+  if s = "none" then some none else s.toNat?.map some
+
+def parseForm : String → Option Form
+  | "L" => some .list | "V" => some .vec | "S" => some .scalar | _ => none
+
+def flat (bs : List Box) : List Rat := bs.flatMap (fun b => b.flatMap (fun p => [p.1, p.2]))
 
 def handle : List String → String
+  | ["b2b", form, box, strat, style, nsub, expr, table] =>
+    match parseForm form, parseBox box, parseStyle style, parseNsub nsub, parseExpr expr, parseTable table with
+    | some form, some box, some style, some nsub, some e, some t =>
+      let φ := tableFun t
+      let s := parseStrategy strat
+      match missing t (queries φ e box s style nsub) with
+      | [] => showVal (b2b φ e form box s style nsub)
+      | qs => showNeed qs
+    | _, _, _, _, _, _ => "bad-op"
+  | ["ep", method, box, style, nsub, expr, table] =>
+    match parseBox box, parseStyle style, parseNsub nsub, parseExpr expr, parseTable table with
+    | some box, some style, some nsub, some e, some t =>
+      let φ := tableFun t
+      match route method with
+      | none => showVal (epRun φ e box method style nsub)
+      | some s =>
+        match missing t (queries φ e box s style nsub) with
+        | [] => showVal (epRun φ e box method style nsub)
+        | qs => showNeed qs
+    | _, _, _, _, _ => "bad-op"
+  | ["tiles", box, n] =>
+    match parseBox box, n.toNat? with
+    | some box, some n => let ts := tiles box n; s!"ok {ts.length} {showList (flat ts)}"
+    | _, _ => "bad-op"
+  | ["corners", box] =>
+    match parseBox box with
+    | some box => let cs := corners box; s!"ok {cs.length} {showList (cs.flatMap id)}"
+    | none => "bad-op"
   | _ => "bad-op"
 
 end Pun.Drv.C13
